@@ -54,7 +54,7 @@ func newSrcInfo(s *ast.Source) *srcInfo {
 	// quotes is read as the library reads it on purpose (finding F-C03-03, C03's business) and (b) characters above U+FFFF
 	// are source characters, as in the later drafts the library follows (Lex abstains on them)
 	rr := ref.Lex(s.Input)
-	if rr.Abstain == "non-bmp-source-character" || (rr.Abstain == "" && strings.Contains(s.Input, `""""`)) {
+	if rr.Abstain == "non-bmp-source-character" || rr.Abstain == "surrogate-escape" || (rr.Abstain == "" && strings.Contains(s.Input, `""""`)) {
 		if fr := ref.LexFrame(s.Input); fr.Abstain == "" && !fr.Failed {
 			rr = fr
 		}
@@ -442,13 +442,16 @@ func c04Run(x *core.Ctx) {
 	}
 	r := x.Rand(uint64(x.Shard))
 	for i := 0; i < n; i++ {
-		rn := &model.Renderer{R: r.Fork(uint64(i)), BlockValue: ref.BlockStringValue, Trivia: 2}
+		rn := &model.Renderer{R: r.Fork(uint64(i)), BlockValue: ref.BlockStringValue, Trivia: 2, WideComments: i%2 == 0}
 		switch i % 4 {
 		case 0, 1:
 			d := gen.QueryDoc(r, &gen.QOpts{MaxDepth: 3, Hostile: i%8 < 4, FragVars: true, VarDirs: true, KeywordNames: i%3 == 0})
 			src := rn.RenderDoc(d)
 			if i%16 == 4 {
 				src = c04CloseRun(r, src)
+			}
+			if i%16 == 8 || i%16 == 9 {
+				src = c04SurrogateEscapes(r, src)
 			}
 			c := core.NewCase("query", "src", src)
 			x.Do(c, func() { c04Check(x, c) })
@@ -461,6 +464,9 @@ func c04Run(x *core.Ctx) {
 			src := rn.RenderSDoc(d)
 			if i%16 == 2 {
 				src = c04CloseRun(r, src)
+			}
+			if i%16 == 10 {
+				src = c04SurrogateEscapes(r, src)
 			}
 			c := core.NewCase("schema", "src", src)
 			x.Do(c, func() { c04Check(x, c) })
@@ -492,6 +498,28 @@ func c04CloseRun(r *core.Rand, src string) string {
 	rs := []rune(src)
 	extra := strings.Repeat(`"`, 1+r.Intn(2))
 	return string(rs[:t.End-3]) + extra + string(rs[t.End-3:])
+}
+
+// c04SurrogateEscapes writes \u escapes from the surrogate range (a pair, a lone half, a pair in the wrong order) into one
+// quoted string of the text: whatever value the library gives them, the tokens after the string start where they start.
+func c04SurrogateEscapes(r *core.Rand, src string) string {
+	rr := ref.Lex(src)
+	if rr.Abstain != "" || rr.Failed {
+		return src
+	}
+	var strs []ref.Tok
+	for _, t := range rr.Toks {
+		if t.Kind == ref.KString {
+			strs = append(strs, t)
+		}
+	}
+	if len(strs) == 0 {
+		return src
+	}
+	t := strs[r.Intn(len(strs))]
+	rs := []rune(src)
+	esc := r.Pick(`\uD83D\uDE00`, `\uD83D`, `\uDE00\uD83D`, `\uD83D\uDE00\uD83D\uDE00x`, `\ud83d\ude00`)
+	return string(rs[:t.Start+1]) + esc + string(rs[t.Start+1:])
 }
 
 // mutateTokens applies one random single-token mutation (delete, duplicate, swap, substitute).
